@@ -981,9 +981,18 @@ class WebSocketProtocol13(WebSocketProtocol):
         self, headers: httputil.HTTPHeaders
     ) -> list[tuple[str, dict[str, str]]]:
         extensions = headers.get("Sec-WebSocket-Extensions", "")
+        result = []
         if extensions:
-            return [httputil._parse_header(e.strip()) for e in extensions.split(",")]
-        return []
+            for e in extensions.split(","):
+                name, params = httputil._parse_header(e.strip())
+                # _parse_header drops parameters that have no value, but
+                # those are meaningful here (e.g. server_no_context_takeover).
+                for p in e.split(";")[1:]:
+                    p = p.strip().lower()
+                    if p and "=" not in p:
+                        params.setdefault(p, None)  # type: ignore
+                result.append((name, params))
+        return result
 
     def _process_server_headers(
         self, key: str | bytes, headers: httputil.HTTPHeaders
